@@ -45,7 +45,7 @@ func NewDG12(data []byte) (*DG12, error) {
 		return nil, fmt.Errorf("[NewDG12] error: %w", err)
 	}
 
-	rootNode := nodes.NodeByTag(DG12Tag)
+	rootNode := lookupRootNode(nodes, DG12Tag)
 
 	if !rootNode.IsValidNode() {
 		return nil, fmt.Errorf("[NewDG12] root node (%x) missing", DG12Tag)
